@@ -122,7 +122,7 @@ Record config := {
   c_stable : option (list nat);    (* config.stable_final_state_ids (a set: sorted) *)
   c_helcoup : bool;                (* config.use_helicity_couplings *)
   c_flags : flags;                 (* naming.insert_*  *)
-  c_dyn : list (nat * nat);        (* dynamics: selection -> lineshape builder (sorted) *)
+  c_dyn : list (nat * nat);        (* dynamics: decay node -> lineshape builder (sorted) *)
   c_topos : list nat               (* adapter.registered_topologies (a set: sorted) *)
 }.
 
@@ -134,7 +134,8 @@ Inductive op :=
 | NewBuilder (r : nat)
 | SetConfig (b : nat) (f : cfield)
 | SetNaming (b : nat) (f : nflag) (v : bool)
-| Assign (b sel bld : nat)
+| Assign (b sel bld : nat)          (* dynamics.assign(particle name / Particle, builder) *)
+| AssignDecay (b d bld : nat)       (* dynamics.assign(TwoBodyDecay / (transition, node_id), builder) *)
 | RegisterTopo (b t : nat)
 | Permutate (b : nat)
 | Formulate (b : nat) (order : list nat).
@@ -211,6 +212,7 @@ Section World.
   Variable default_flags : nat -> flags.          (* helicity vs canonical name generator *)
   Variable base_topos : nat -> list nat.          (* topologies of the reaction (sorted) *)
   Variable perms_of : nat -> list nat.            (* final-state permutations of a topology *)
+  Variable decays_of : nat -> nat -> list nat.    (* reaction, resonance -> its two-body decay nodes *)
   Variable register : nat -> flags -> ntab.       (* _register_amplitude_coefficients *)
   Variable top : nat -> config -> ntab -> val * vdict * vdict * vdict.
      (* __formulate_top_expression: intensity and, in program order, the writes
@@ -351,7 +353,17 @@ Section World.
         | None => (w, None)
         | Some B => (upd_builder w i {| b_reaction := b_reaction B;
                                         b_config := with_dyn (b_config B)
-                                                      (aset sel bld (c_dyn (b_config B)));
+                                                      (fold_right (fun d acc => aset d bld acc)
+                                                                  (c_dyn (b_config B))
+                                                                  (decays_of (b_reaction B) sel));
+                                        b_ntab := b_ntab B; b_scratch := b_scratch B |}, None)
+        end
+    | AssignDecay i d bld =>
+        match nth_error (w_builders w) i with
+        | None => (w, None)
+        | Some B => (upd_builder w i {| b_reaction := b_reaction B;
+                                        b_config := with_dyn (b_config B)
+                                                      (aset d bld (c_dyn (b_config B)));
                                         b_ntab := b_ntab B; b_scratch := b_scratch B |}, None)
         end
     | RegisterTopo i t =>
@@ -478,9 +490,10 @@ Module Toy.
   Section WithTopologies.
     Variable base_topos : nat -> list nat.
     Variable perms_of : nat -> list nat.
-    Definition t_step := step t_default_flags base_topos perms_of t_register t_top t_topo_vars
+    Variable decays_of : nat -> nat -> list nat.
+    Definition t_step := step t_default_flags base_topos perms_of decays_of t_register t_top t_topo_vars
                               t_moves t_align_syms t_xrepl t_new_masses t_loop_pars.
-    Definition t_run := run t_default_flags base_topos perms_of t_register t_top t_topo_vars
+    Definition t_run := run t_default_flags base_topos perms_of decays_of t_register t_top t_topo_vars
                             t_moves t_align_syms t_xrepl t_new_masses t_loop_pars.
     Definition t_spec := formulate_spec t_register t_top t_topo_vars t_moves t_align_syms
                                         t_xrepl t_new_masses t_loop_pars.
